@@ -150,12 +150,14 @@ def oracle(pystog, case, res):
         g_lo = float(L.to_base(1, R, np.array([r_lo]), np.array([case["gr"][keep[0]]], float), m)[0])
         s0_ = 4 * math.pi * m["rho"] * g_lo + 1.0
         want_c = np.array([math.pi / 2 * LQ.model_term(r_lo, s0_, r_hi, float(v), bool(case["lorch"])) for v in xq_])
-        tol_c = 1e-6 * (np.abs(want_c).max() + np.abs(F_on - F_off).max()) + 1e-12
         ok_pts = np.isfinite(F_on - F_off) & (xq_ > 0)
+        # (plus the rounding of the closed forms, which cancel catastrophically for small r_first * Q)
+        tol_c = 1e-6 * (np.abs(want_c).max() + np.abs(F_on - F_off).max()) + 1e-12 + 8e-15 * np.array(
+            [LQ.cancel_mag(r_lo, s0_, r_hi, float(v), bool(case["lorch"])) if v > 0 else 0.0 for v in xq_])
         if case["lorch"]:
             ok_pts &= np.abs(np.abs(xq_) - math.pi / r_hi) > 1e-3
-        if (np.abs((F_on - F_off) - want_c)[ok_pts] > tol_c).any():
-            j_ = int(np.argmax(np.where(ok_pts, np.abs((F_on - F_off) - want_c), 0.0)))
+        if (np.abs((F_on - F_off) - want_c) > tol_c)[ok_pts].any():
+            j_ = int(np.argmax(np.where(ok_pts, np.abs((F_on - F_off) - want_c) - tol_c, -np.inf)))
             return "omitted-range term of the removed component at Q=%r is %r, the integral of the linear-to-zero model below r=%r gives %r (lorch=%s)" % (
                 float(xq_[j_]), float((F_on - F_off)[j_]), r_lo, float(want_c[j_]), case["lorch"])
     # returned real-space function = transform of the returned corrected function
